@@ -122,7 +122,12 @@ func TestVerifC09(t *testing.T) {
 			} else {
 				// backend paths that merely resemble the shim's: they start with the same characters, or contain it further down
 				path := []string{"/p", "/verifshim-admin/users", "/p", "/verifshim.js", "/verifshimmy/data", "/x/verifshim/data", "/p", "/verifshim-poll"}[i%8]
-				fmt.Fprintf(&raw, "GET %s?tok=%s HTTP/1.1\r\nHost: verif.example\r\n", path, c.tok)
+				// every method, also a CORS preflight (OPTIONS with Access-Control-Request-Method) and a HEAD
+				method := []string{"GET", "POST", "OPTIONS", "GET", "HEAD", "PUT", "OPTIONS", "DELETE", "PATCH", "GET", "OPTIONS"}[(i+cfg)%11]
+				fmt.Fprintf(&raw, "%s %s?tok=%s HTTP/1.1\r\nHost: verif.example\r\n", method, path, c.tok)
+				if method == "OPTIONS" && (i+cfg)%11 != 10 {
+					fmt.Fprintf(&raw, "Origin: https://app.example\r\nAccess-Control-Request-Method: POST\r\nAccess-Control-Request-Headers: authorization, x-inverting-proxy-user-id\r\n")
+				}
 				for _, f := range c.fields {
 					fmt.Fprintf(&raw, "%s: %s\r\n", f[0], f[1])
 				}
